@@ -199,6 +199,15 @@ func init() {
 		if zr, err := zip.NewReader(bytes.NewReader(data), int64(len(data))); err == nil {
 			for _, f := range zr.File {
 				listing = append(listing, f.Name)
+				// read every entry back through the written bytes (inflate + CRC)
+				if rc, err := f.Open(); err != nil {
+					out["zip_err"] = f.Name + ": " + err.Error()
+				} else {
+					if _, err := io.Copy(io.Discard, rc); err != nil {
+						out["zip_err"] = f.Name + ": " + err.Error()
+					}
+					rc.Close()
+				}
 				if f.Name == "config.arrai" {
 					if rc, err := f.Open(); err == nil {
 						b, _ := io.ReadAll(rc)
